@@ -10,9 +10,17 @@ class Driver:
         self.p = subprocess.Popen([UHDRV], stdin=subprocess.PIPE, stdout=subprocess.PIPE,
                                   text=True, encoding='utf-8', bufsize=1)
 
-    def ask(self, line: str) -> str:
+    def ask(self, line: str, timeout: float = None) -> str:
         self.p.stdin.write(line + "\n")
         self.p.stdin.flush()
+        if timeout is not None:
+            # a budget for this answer (the by-name reference evaluator re-evaluates shared arguments: exponential on sharing
+            # families): when it is used up the driver is killed and the caller restarts it
+            import select
+            ready, _, _ = select.select([self.p.stdout], [], [], timeout)
+            if not ready:
+                self.p.kill()
+                raise RuntimeError("model driver died on (budget used up): " + line[:200])
         out = self.p.stdout.readline()
         if not out:
             raise RuntimeError("model driver died on: " + line[:200])
@@ -140,7 +148,7 @@ def run_bn(program: str, fuel: int = 4000):
     a single-expression program of the fragment, 'fn' for a function value, or None (outside the fragment / out of fuel)"""
     global _DRV
     try:
-        out = driver().ask(f"bn {fuel} {hx(program)}")
+        out = driver().ask(f"bn {fuel} {hx(program)}", timeout=8.0)
     except RuntimeError as e:
         if 'died' not in str(e):
             raise
